@@ -197,15 +197,16 @@ lemma StepSpec.step_frame {D A : Type} (s : StepSpec D A) (o : Obj) (ds : List D
   intro v hv
   exact hk (collect_keys _ _ _ _ hv)
 
-/-- hypothesis `hdep` of `resume_bisim` for a `StepSpec`, with `R = reads`, `W = writes`: needs
-    that every written attribute is either also read (so that when a call leaves it alone —
+/-- hypothesis `hdep` of `resume_bisim` for a `StepSpec`, with `W = writes` and any `R ⊇ reads`
+    such that every written attribute is either in `R` (so that when a call leaves it alone —
     rejection — the old values agree) or assigned by every call. -/
-lemma StepSpec.hdep {D A : Type} (s : StepSpec D A)
+lemma StepSpec.hdep {D A : Type} (s : StepSpec D A) (R : List String)
+    (hRR : ∀ k, k ∈ s.reads → k ∈ R)
     (hW : ∀ (o : Obj) (ds : List D) k, k ∈ s.writes →
-      k ∈ s.reads ∨ ∃ v, (k, v) ∈ collect s.writes (s.kern (s.reads.map o.get) ds).1)
-    (o o' : Obj) (ds : List D) (h : AgreeOn s.reads o o') :
+      k ∈ R ∨ ∃ v, (k, v) ∈ collect s.writes (s.kern (s.reads.map o.get) ds).1)
+    (o o' : Obj) (ds : List D) (h : AgreeOn R o o') :
     (s.step o ds).2 = (s.step o' ds).2 ∧ AgreeOn s.writes (s.step o ds).1 (s.step o' ds).1 := by
-  obtain ⟨h1, h2⟩ := s.step_dep o o' ds h
+  obtain ⟨h1, h2⟩ := s.step_dep o o' ds (h.mono hRR)
   refine ⟨h1, ?_⟩
   intro k hk
   rcases hW o ds k hk with hr | hw
@@ -520,5 +521,455 @@ lemma sampleLoop_stream_obj {D A : Type} (sp : Spec D A) (n : Nat) (a b : Run D 
   | succ k ih =>
     simp only [sampleLoop]
     apply ih <;> simp [oneStep, ho, hs]
+
+/-! ## 5. statements shared by the per-class theorems -/
+
+/-- conclusion of the run-level resume theorems: checkpoint after `sample(p)` on `r`, load into
+    `f`, continue with the stream where the original stopped — for every `m` the `m` new stored
+    samples / acceptance records of the resumed sampler are those of the uninterrupted
+    `sample(p+m)`, the streams end at the same place, the objects agree on the state keys. -/
+def ResumesExactly {D A : Type} (sp : Spec D A) (r f : Run D A) (p : Nat) : Prop :=
+  ∃ f', loadCheckpoint sp (saveCheckpoint sp (sample sp p r)).2 f = some f' ∧
+    f'.samples = (ensureInit sp f).samples ∧
+    ∀ m, ∃ tail : List (Val × A), tail.length = m ∧
+      (sample sp (p + m) r).samples = (sample sp p r).samples ++ tail.map Prod.fst ∧
+      (sample sp (p + m) r).acc = (sample sp p r).acc ++ tail.map Prod.snd ∧
+      (sample sp m { f' with stream := (sample sp p r).stream }).samples = f'.samples ++ tail.map Prod.fst ∧
+      (sample sp m { f' with stream := (sample sp p r).stream }).acc = f'.acc ++ tail.map Prod.snd ∧
+      (sample sp m { f' with stream := (sample sp p r).stream }).stream = (sample sp (p + m) r).stream ∧
+      AgreeOn sp.stateKeys (sample sp m { f' with stream := (sample sp p r).stream }).obj
+        (sample sp (p + m) r).obj
+
+/-- the instance's read / write sets against the sets extracted from the current Python source:
+    * every attribute the instance reads (writes) is reported as read (written) by `step`;
+    * every *carried* read of the source's `step` is a read of the instance or a named
+      configuration attribute, every write of the source's `step` is a write of the instance
+      (so a source change that adds a read or a write falsifies this);
+    * the instance's reads are `_STATE_KEYS`; the configuration attributes are assigned by the
+      constructor and by none of `step`, `tune`, `_pre_sample`, `_pre_warmup`, and are not
+      initialised from a random source. -/
+def tableConsistent (t : Gen.ClassTable) (reads writes cfg : List String) : Bool :=
+  reads.all (fun k => t.stepReads.contains k) &&
+  writes.all (fun k => t.stepWrites.contains k) &&
+  t.stepCarried.all (fun k => reads.contains k || cfg.contains k) &&
+  t.stepWrites.all (fun k => writes.contains k) &&
+  reads.all (fun k => t.stateKeys.contains k) &&
+  cfg.all (fun k => t.ctorKeys.contains k && !t.randomInitKeys.contains k &&
+    !(t.stepWrites ++ t.tuneWrites ++ t.preSampleWrites ++ t.preWarmupWrites).contains k)
+
+/-! ## 6. per-class lemmas -/
+
+lemma metropolis_reject (k : C02.Kernel) (st : C02.St) (xs : Vec) (t : C02.XVal) (gs : Vec) (ratio ell : C02.XVal)
+    (h : (C02.metropolis k st xs t gs ratio ell).2 = false) : (C02.metropolis k st xs t gs ratio ell).1 = st := by
+  unfold C02.metropolis at h ⊢
+  split at h
+  · cases h
+  · rename_i hc; simp [hc]
+
+lemma metropolis_scale (k : C02.Kernel) (st : C02.St) (xs : Vec) (t : C02.XVal) (gs : Vec) (ratio ell : C02.XVal) :
+    (C02.metropolis k st xs t gs ratio ell).1.scale = st.scale := by
+  unfold C02.metropolis
+  split <;> rfl
+
+/-- writes ⊆ R: the `hW` hypothesis of `StepSpec.hdep` for the Metropolis family -/
+lemma hW_of_subset {D A : Type} (s : StepSpec D A) (R : List String) (h : ∀ k, k ∈ s.writes → k ∈ R) :
+    ∀ (o : Obj) (ds : List D) k, k ∈ s.writes →
+      k ∈ R ∨ ∃ v, (k, v) ∈ collect s.writes (s.kern (s.reads.map o.get) ds).1 :=
+  fun _ _ k hk => Or.inl (h k hk)
+
+lemma mh_hR : ∀ k, k ∈ mhReads → k ∈ Gen.cls_MH.stateKeys := by decide
+lemma mh_hWR : ∀ k, k ∈ mhWrites → k ∈ mhReads := by decide
+lemma pcn_hR : ∀ k, k ∈ pcnReads → k ∈ Gen.cls_PCN.stateKeys := by decide
+lemma pcn_hWR : ∀ k, k ∈ pcnWrites → k ∈ pcnReads := by decide
+lemma mala_hR : ∀ k, k ∈ malaReads → k ∈ Gen.cls_MALA.stateKeys := by decide
+lemma mala_hWR : ∀ k, k ∈ malaWrites → k ∈ malaReads := by decide
+lemma ula_hR : ∀ k, k ∈ ulaReads → k ∈ Gen.cls_ULA.stateKeys := by decide
+lemma cw_hR : ∀ k, k ∈ cwReads → k ∈ Gen.cls_CWMH.stateKeys := by decide
+lemma cw_hWR : ∀ k, k ∈ cwWrites → k ∈ cwReads := by decide
+lemma nuts_hR : ∀ k, k ∈ nutsReads → k ∈ Gen.cls_NUTS.stateKeys := by decide
+
+/-! #### simulation: the instance's `step` is the C02 / C08 step on the decoded record -/
+
+lemma mh_step_sim (logd : Vec → C02.XVal) (o : Obj) (x : Vec) (l : C02.XVal) (s : Vec)
+    (hx : o.get "current_point" = encVec x) (hl : o.get "current_target_logd" = encX l)
+    (hs : o.get "scale" = encVec s) (xi : Vec) (ell : C02.XVal) (rest : List (Vec × C02.XVal)) :
+    ((mhStepSpec logd).step o ((xi, ell) :: rest)).2 = ((C02.mhStep .expMH logd ⟨x, l, [], s⟩ xi ell).2, rest) ∧
+    ((mhStepSpec logd).step o ((xi, ell) :: rest)).1.get "current_point" = encVec (C02.mhStep .expMH logd ⟨x, l, [], s⟩ xi ell).1.x ∧
+    ((mhStepSpec logd).step o ((xi, ell) :: rest)).1.get "current_target_logd" = encX (C02.mhStep .expMH logd ⟨x, l, [], s⟩ xi ell).1.logd ∧
+    ((mhStepSpec logd).step o ((xi, ell) :: rest)).1.get "scale" = encVec (C02.mhStep .expMH logd ⟨x, l, [], s⟩ xi ell).1.scale := by
+  have hsc : (C02.mhStep .expMH logd ⟨x, l, [], s⟩ xi ell).1.scale = s := metropolis_scale ..
+  simp only [StepSpec.step, mhStepSpec, mhReads, mhWrites, List.map, hx, hl, hs, mhKern, decVec_encVec, decX_encX, hsc]
+  by_cases h : (C02.mhStep .expMH logd ⟨x, l, [], s⟩ xi ell).2 = true
+  · simp [h, collect, applyWrites, get_set, hs]
+  · have h' : (C02.mhStep .expMH logd ⟨x, l, [], s⟩ xi ell).2 = false := by simpa using h
+    have hr : (C02.mhStep .expMH logd ⟨x, l, [], s⟩ xi ell).1 = ⟨x, l, [], s⟩ := metropolis_reject _ _ _ _ _ _ _ h'
+    simp [h', hr, collect, applyWrites, hx, hl, hs]
+
+lemma pcn_step_sim (loglik : Vec → C02.XVal) (sqrtf : Rat → Rat) (o : Obj) (x : Vec) (l : C02.XVal) (s : Vec)
+    (hx : o.get "current_point" = encVec x) (hl : o.get "current_likelihood_logd" = encX l)
+    (hs : o.get "scale" = encVec s) (xi : Vec) (ell : C02.XVal) (rest : List (Vec × C02.XVal)) :
+    ((pcnStepSpec loglik sqrtf).step o ((xi, ell) :: rest)).2 =
+      ((C02.pcnStep .expPCN loglik (sqrtf (1 - s.headD 0 * s.headD 0)) ⟨x, l, [], s⟩ xi ell).2, rest) ∧
+    ((pcnStepSpec loglik sqrtf).step o ((xi, ell) :: rest)).1.get "current_point" =
+      encVec (C02.pcnStep .expPCN loglik (sqrtf (1 - s.headD 0 * s.headD 0)) ⟨x, l, [], s⟩ xi ell).1.x ∧
+    ((pcnStepSpec loglik sqrtf).step o ((xi, ell) :: rest)).1.get "current_likelihood_logd" =
+      encX (C02.pcnStep .expPCN loglik (sqrtf (1 - s.headD 0 * s.headD 0)) ⟨x, l, [], s⟩ xi ell).1.logd ∧
+    ((pcnStepSpec loglik sqrtf).step o ((xi, ell) :: rest)).1.get "scale" = encVec s := by
+  simp only [StepSpec.step, pcnStepSpec, pcnReads, pcnWrites, List.map, hx, hl, hs, pcnKern, decVec_encVec, decX_encX, C02.scalar]
+  generalize sqrtf (1 - s.headD 0 * s.headD 0) = c
+  by_cases h : (C02.pcnStep .expPCN loglik c ⟨x, l, [], s⟩ xi ell).2 = true
+  · simp [h, collect, applyWrites, get_set, hs]
+  · have h' : (C02.pcnStep .expPCN loglik c ⟨x, l, [], s⟩ xi ell).2 = false := by simpa using h
+    have hr : (C02.pcnStep .expPCN loglik c ⟨x, l, [], s⟩ xi ell).1 = ⟨x, l, [], s⟩ :=
+      metropolis_reject _ _ _ _ _ _ _ h'
+    simp [h', hr, collect, applyWrites, hx, hl, hs]
+
+lemma mala_step_sim (logd : Vec → C02.XVal) (gradf : Vec → Vec) (sqrtf : Rat → Rat) (o : Obj)
+    (x : Vec) (l : C02.XVal) (g s : Vec)
+    (hx : o.get "current_point" = encVec x) (hl : o.get "current_target_logd" = encX l)
+    (hg : o.get "current_target_grad" = encVec g)
+    (hs : o.get "scale" = encVec s) (z : Vec) (ell : C02.XVal) (rest : List (Vec × C02.XVal)) :
+    ((malaStepSpec logd gradf sqrtf).step o ((z, ell) :: rest)).2 =
+      ((C02.malaStep .expMALA logd gradf (sqrtf (s.headD 0)) ⟨x, l, g, s⟩ z ell).2, rest) ∧
+    ((malaStepSpec logd gradf sqrtf).step o ((z, ell) :: rest)).1.get "current_point" =
+      encVec (C02.malaStep .expMALA logd gradf (sqrtf (s.headD 0)) ⟨x, l, g, s⟩ z ell).1.x ∧
+    ((malaStepSpec logd gradf sqrtf).step o ((z, ell) :: rest)).1.get "current_target_logd" =
+      encX (C02.malaStep .expMALA logd gradf (sqrtf (s.headD 0)) ⟨x, l, g, s⟩ z ell).1.logd ∧
+    ((malaStepSpec logd gradf sqrtf).step o ((z, ell) :: rest)).1.get "current_target_grad" =
+      encVec (C02.malaStep .expMALA logd gradf (sqrtf (s.headD 0)) ⟨x, l, g, s⟩ z ell).1.grad ∧
+    ((malaStepSpec logd gradf sqrtf).step o ((z, ell) :: rest)).1.get "scale" = encVec s := by
+  simp only [StepSpec.step, malaStepSpec, malaReads, malaWrites, List.map, hx, hl, hg, hs, malaKern, decVec_encVec, decX_encX, C02.scalar]
+  generalize sqrtf (s.headD 0) = c
+  by_cases h : (C02.malaStep .expMALA logd gradf c ⟨x, l, g, s⟩ z ell).2 = true
+  · simp [h, collect, applyWrites, get_set, hs]
+  · have h' : (C02.malaStep .expMALA logd gradf c ⟨x, l, g, s⟩ z ell).2 = false := by simpa using h
+    have hr : (C02.malaStep .expMALA logd gradf c ⟨x, l, g, s⟩ z ell).1 = ⟨x, l, g, s⟩ :=
+      metropolis_reject _ _ _ _ _ _ _ h'
+    simp [h', hr, collect, applyWrites, hx, hl, hg, hs]
+
+lemma le_neginf_pyMin0 (r : C02.XVal) : C02.XVal.le .neginf (C02.XVal.pyMin0 r) = true := by
+  unfold C02.XVal.pyMin0
+  split <;> cases r <;> simp_all [C02.XVal.le, C02.XVal.lt]
+
+/-- `ULA.step` is `MALA.step` with the Metropolis test switched off (`log u = -inf`) -/
+lemma ulaStep_eq (logd : Vec → C02.XVal) (gradf : Vec → Vec) (sigma : Rat) (st : C02.St) (z : Vec) :
+    ulaStep logd gradf sigma st z = C02.malaStep .expMALA logd gradf sigma st z .neginf := by
+  simp only [ulaStep, C02.malaStep, C02.metropolis, C02.accepts, C02.acceptsG, le_neginf_pyMin0,
+    C02.Kernel.guardNan, C02.Kernel.guardInf, Bool.true_and, Bool.not_true, Bool.false_or]
+
+lemma ulaStep_reject (logd : Vec → C02.XVal) (gradf : Vec → Vec) (sigma : Rat) (st : C02.St) (z : Vec)
+    (h : (ulaStep logd gradf sigma st z).2 = false) : (ulaStep logd gradf sigma st z).1 = st := by
+  rw [ulaStep_eq] at h ⊢
+  exact metropolis_reject _ _ _ _ _ _ _ h
+
+/-- for ULA the bisimulation set is `reads` plus `current_target_logd`, which `step` assigns on
+    acceptance without reading it -/
+def ulaR : List String := "current_target_logd" :: ulaReads
+lemma ula_hRR : ∀ k, k ∈ ulaReads → k ∈ ulaR := by decide
+lemma ula_hRS : ∀ k, k ∈ ulaR → k ∈ Gen.cls_ULA.stateKeys := by decide
+lemma ula_hWR : ∀ k, k ∈ ulaWrites → k ∈ ulaR := by decide
+
+lemma ula_step_sim (logd : Vec → C02.XVal) (gradf : Vec → Vec) (sqrtf : Rat → Rat) (o : Obj)
+    (x g s : Vec)
+    (hx : o.get "current_point" = encVec x) (hg : o.get "current_target_grad" = encVec g)
+    (hs : o.get "scale" = encVec s) (z : Vec) (rest : List Vec) :
+    ((ulaStepSpec logd gradf sqrtf).step o (z :: rest)).2 =
+      ((ulaStep logd gradf (sqrtf (s.headD 0)) ⟨x, .nan, g, s⟩ z).2, rest) ∧
+    ((ulaStepSpec logd gradf sqrtf).step o (z :: rest)).1.get "current_point" =
+      encVec (ulaStep logd gradf (sqrtf (s.headD 0)) ⟨x, .nan, g, s⟩ z).1.x ∧
+    ((ulaStepSpec logd gradf sqrtf).step o (z :: rest)).1.get "current_target_grad" =
+      encVec (ulaStep logd gradf (sqrtf (s.headD 0)) ⟨x, .nan, g, s⟩ z).1.grad ∧
+    ((ulaStepSpec logd gradf sqrtf).step o (z :: rest)).1.get "current_target_logd" =
+      (if (ulaStep logd gradf (sqrtf (s.headD 0)) ⟨x, .nan, g, s⟩ z).2
+        then encX (ulaStep logd gradf (sqrtf (s.headD 0)) ⟨x, .nan, g, s⟩ z).1.logd
+        else o.get "current_target_logd") ∧
+    ((ulaStepSpec logd gradf sqrtf).step o (z :: rest)).1.get "scale" = encVec s := by
+  simp only [StepSpec.step, ulaStepSpec, ulaReads, ulaWrites, List.map, hx, hg, hs, ulaKern, decVec_encVec, C02.scalar]
+  generalize sqrtf (s.headD 0) = c
+  by_cases h : (ulaStep logd gradf c ⟨x, .nan, g, s⟩ z).2 = true
+  · simp [h, collect, applyWrites, get_set, hs]
+  · have h' : (ulaStep logd gradf c ⟨x, .nan, g, s⟩ z).2 = false := by simpa using h
+    have hr : (ulaStep logd gradf c ⟨x, .nan, g, s⟩ z).1 = ⟨x, .nan, g, s⟩ := ulaStep_reject _ _ _ _ _ h'
+    simp [h', hr, collect, applyWrites, hx, hg, hs]
+
+lemma cw_step_sim (logd : Vec → C02.XVal) (o : Obj) (x : Vec) (l : C02.XVal) (s : Vec)
+    (hx : o.get "current_point" = encVec x) (hl : o.get "current_target_logd" = encX l)
+    (hs : o.get "_scale" = encVec s) (z : Vec) (ells : List C02.XVal) (rest : List (Vec × List C02.XVal)) :
+    ((cwStepSpec logd).step o ((z, ells) :: rest)).2 =
+      ((C02.cwStep .expCWMH (fun _ p => logd p) ⟨x, l, [], s⟩ z ells).2.1, rest) ∧
+    ((cwStepSpec logd).step o ((z, ells) :: rest)).1.get "current_point" =
+      encVec (C02.cwStep .expCWMH (fun _ p => logd p) ⟨x, l, [], s⟩ z ells).1.x ∧
+    ((cwStepSpec logd).step o ((z, ells) :: rest)).1.get "current_target_logd" =
+      encX (C02.cwStep .expCWMH (fun _ p => logd p) ⟨x, l, [], s⟩ z ells).1.logd ∧
+    ((cwStepSpec logd).step o ((z, ells) :: rest)).1.get "_scale" =
+      encVec (C02.cwStep .expCWMH (fun _ p => logd p) ⟨x, l, [], s⟩ z ells).1.scale := by
+  simp only [StepSpec.step, cwStepSpec, cwReads, cwWrites, List.map, hx, hl, hs, cwKern, decVec_encVec, decX_encX]
+  simp [collect, applyWrites, get_set, hs, C02.cwStep]
+
+/-! NUTS -/
+
+lemma nutsKern_shape (cfg : NutsCfg) (e eb md x g l : Val) (ds : List Rat) :
+    ∃ a n p q r, (nutsKern cfg [e, eb, md, x, g, l] ds).1 = [some a, some eb, some n, p, q, r] := by
+  simp only [nutsKern]
+  split <;> exact ⟨_, _, _, _, _, rfl⟩
+
+lemma nuts_hW (cfg : NutsCfg) :
+    ∀ (o : Obj) (ds : List Rat) k, k ∈ (nutsStepSpec cfg).writes →
+      k ∈ nutsReads ∨ ∃ v, (k, v) ∈ collect (nutsStepSpec cfg).writes
+          ((nutsStepSpec cfg).kern ((nutsStepSpec cfg).reads.map o.get) ds).1 := by
+  intro o ds k hk
+  simp only [nutsStepSpec, nutsReads, nutsWrites, List.map] at hk ⊢
+  obtain ⟨a, n, p, q, r, hsh⟩ := nutsKern_shape cfg (o.get "_epsilon") (o.get "_epsilon_bar") (o.get "_max_depth")
+    (o.get "current_point") (o.get "current_target_grad") (o.get "current_target_logd") ds
+  rw [hsh]
+  simp only [List.mem_cons, List.not_mem_nil, or_false] at hk
+  rcases hk with rfl | rfl | rfl | rfl | rfl | rfl
+  · right; exact ⟨a, by simp [collect]⟩
+  · left; simp
+  · right; exact ⟨n, by simp [collect]⟩
+  · left; simp
+  · left; simp
+  · left; simp
+
+lemma loopBody_cur_of_not_acc {Z : Type} (c : C08.Ctx Z) (guard : Z → Bool) (st : C08.Loop Z) (z0 : Z)
+    (h : st.acc = false → st.cur = z0) (ha : (C08.loopBody c guard st).acc = false) :
+    (C08.loopBody c guard st).cur = z0 := by
+  simp only [C08.loopBody] at ha ⊢
+  simp only [Bool.or_eq_false_iff] at ha
+  rw [ha.2]
+  simp [h ha.1]
+
+lemma loop_cur_of_not_acc {Z : Type} (c : C08.Ctx Z) (guard : Z → Bool) (md fuel : Nat) (st : C08.Loop Z) (z0 : Z)
+    (h : st.acc = false → st.cur = z0) (ha : (C08.loop c guard md fuel st).acc = false) :
+    (C08.loop c guard md fuel st).cur = z0 := by
+  induction fuel generalizing st with
+  | zero => exact h ha
+  | succ k ih =>
+    simp only [C08.loop] at ha ⊢
+    split
+    · rename_i hc
+      rw [if_pos hc] at ha
+      exact ih _ (loopBody_cur_of_not_acc c guard st z0 h) ha
+    · rename_i hc
+      rw [if_neg hc] at ha
+      exact h ha
+
+/-- a transition that reports `acc = 0` left the point (and its caches) alone -/
+lemma nutsStep_cur_of_not_acc {Z : Type} (c : C08.Ctx Z) (guard : Z → Bool) (md : Nat) (z0 : Z) (us : List Rat)
+    (ha : (C08.nutsStep c guard md z0 us).acc = false) : (C08.nutsStep c guard md z0 us).cur = z0 :=
+  loop_cur_of_not_acc c guard md _ _ z0 (fun _ => rfl) ha
+
+lemma loopBody_guard {Z : Type} (c : C08.Ctx Z) (guard : Z → Bool) (st : C08.Loop Z)
+    (h : guard st.cur = true) : guard (C08.loopBody c guard st).cur = true := by
+  simp only [C08.loopBody]
+  generalize (if (C08.popU st.us).1 < 1 / 2 then (1 : Int) else -1) = v
+  generalize C08.buildTree c v st.j (if v = -1 then st.zminus else st.zplus) (C08.popU st.us).2 = b
+  obtain ⟨t, us1⟩ := b
+  simp only
+  by_cases hts : t.s = true
+  · simp only [hts, if_true]
+    by_cases hacc : (decide ((C08.popU us1).1 * (st.n : Rat) < (t.n : Rat)) && decide ((C08.popU us1).1 < 1) && guard t.cand) = true
+    · simp only [hacc, if_true]
+      simp only [Bool.and_eq_true] at hacc
+      exact hacc.2
+    · simp only [hacc]; exact h
+  · simp only [hts]; exact h
+
+lemma loop_guard {Z : Type} (c : C08.Ctx Z) (guard : Z → Bool) (md fuel : Nat) (st : C08.Loop Z)
+    (h : guard st.cur = true) : guard (C08.loop c guard md fuel st).cur = true := by
+  induction fuel generalizing st with
+  | zero => exact h
+  | succ k ih =>
+    simp only [C08.loop]
+    split
+    · exact ih _ (loopBody_guard c guard st h)
+    · exact h
+
+/-- the point after a transition passes the finiteness guard if the start does -/
+lemma nutsStep_guard {Z : Type} (c : C08.Ctx Z) (guard : Z → Bool) (md : Nat) (z0 : Z) (us : List Rat)
+    (h : guard z0 = true) : guard (C08.nutsStep c guard md z0 us).cur = true :=
+  loop_guard c guard md _ _ h
+/-- the doubling loop `NUTS.step` runs from decoded attribute values, spelled out as the
+    `C08.nutsStep` call of `Driver/C08.lean` -/
+def nutsLoop (cfg : NutsCfg) (eps : Rat) (md : Nat) (x g : Vec) (l0 : Rat) (ds : List Rat) : Rat × C08.Loop C08.PS :=
+  let m := popN x.length ds
+  let ex := C08.popU m.2
+  let ham0 := l0 - (1/2) * C08.dotQ m.1 m.1
+  (ham0, C08.nutsStep (cfg.ctx eps (ham0 - ex.1) ham0) (fun z => z.logd.isFinite) md ⟨x, m.1, .fin l0, g⟩ ex.2)
+
+lemma nutsRun_enc (cfg : NutsCfg) (eps : Rat) (md : Nat) (x g : Vec) (l0 : Rat) (ds : List Rat) :
+    nutsRun cfg (encQ eps) (.int md) (encVec x) (encVec g) l0 ds = nutsLoop cfg eps md x g l0 ds := by
+  simp [nutsRun, nutsLoop, getInt]
+
+lemma nuts_step_sim (cfg : NutsCfg) (o : Obj) (eps : Rat) (eb : Val) (md : Nat) (x g : Vec) (l0 : Rat)
+    (he : o.get "_epsilon" = encQ eps) (heb : o.get "_epsilon_bar" = eb)
+    (hmd : o.get "_max_depth" = .int md) (hx : o.get "current_point" = encVec x)
+    (hg : o.get "current_target_grad" = encVec g) (hl : o.get "current_target_logd" = encR (.fin l0))
+    (ds : List Rat) :
+    ((nutsStepSpec cfg).step o ds).2 = ((nutsLoop cfg eps md x g l0 ds).2.acc, (nutsLoop cfg eps md x g l0 ds).2.us) ∧
+    ((nutsStepSpec cfg).step o ds).1.get "current_point" = encVec (nutsLoop cfg eps md x g l0 ds).2.cur.x ∧
+    ((nutsStepSpec cfg).step o ds).1.get "current_target_grad" = encVec (nutsLoop cfg eps md x g l0 ds).2.cur.grad ∧
+    ((nutsStepSpec cfg).step o ds).1.get "current_target_logd" = encR (nutsLoop cfg eps md x g l0 ds).2.cur.logd ∧
+    ((nutsStepSpec cfg).step o ds).1.get "_epsilon" = eb ∧
+    ((nutsStepSpec cfg).step o ds).1.get "_epsilon_bar" = eb ∧
+    ((nutsStepSpec cfg).step o ds).1.get "_num_tree_node" = .int (nutsLoop cfg eps md x g l0 ds).2.nodes ∧
+    ((nutsStepSpec cfg).step o ds).1.get "_current_alpha_ratio" =
+      encR (cfg.alpha (nutsLoop cfg eps md x g l0 ds).1 (nutsLoop cfg eps md x g l0 ds).2.last) := by
+  simp only [StepSpec.step, nutsStepSpec, nutsReads, nutsWrites, List.map, he, heb, hmd, hx, hg, hl, nutsKern,
+    decR_encR, nutsRun_enc]
+  generalize hL : nutsLoop cfg eps md x g l0 ds = R
+  by_cases h : R.2.acc = true
+  · simp [h, collect, applyWrites, get_set, heb]
+  · have h' : R.2.acc = false := by simpa using h
+    have hcur : R.2.cur = ⟨x, (popN x.length ds).1, .fin l0, g⟩ := by
+      rw [← hL] at h' ⊢
+      exact nutsStep_cur_of_not_acc _ _ _ _ _ h'
+    simp [h', hcur, collect, applyWrites, get_set, heb, hx, hg, hl]
+
+/-! #### NUTS: `_pre_sample`, `tune`, warm-up -/
+
+/-- the sampling-phase invariant of NUTS: `_epsilon_bar` has been set -/
+def nutsInv (o : Obj) : Prop := o.get "_epsilon_bar" ≠ .unset
+
+lemma nuts_inv_step (cfg : NutsCfg) (o : Obj) (ds : List Rat) (h : nutsInv o) :
+    nutsInv ((nutsStepSpec cfg).step o ds).1 := by
+  unfold nutsInv
+  rw [(nutsStepSpec cfg).step_frame o ds "_epsilon_bar" (by show "_epsilon_bar" ∉ nutsWrites; decide)]
+  exact h
+
+lemma nuts_preSample_fix (o : Obj) (h : nutsInv o) : nutsPreSample o = o := by
+  unfold nutsPreSample
+  rw [if_neg h]
+
+lemma nuts_inv_agree (o o' : Obj) (h : AgreeOn Gen.cls_NUTS.stateKeys o o') (hi : nutsInv o) : nutsInv o' := by
+  unfold nutsInv at *
+  rw [← h "_epsilon_bar" (by decide)]
+  exact hi
+
+lemma nuts_preSample_inv (o : Obj) (h : o.get "_epsilon" ≠ .unset ∨ o.get "_epsilon_bar" ≠ .unset) :
+    nutsInv (nutsPreSample o) := by
+  unfold nutsInv nutsPreSample
+  by_cases hb : o.get "_epsilon_bar" = .unset
+  · rw [if_pos hb, get_set]
+    simp only [if_true]
+    rcases h with h | h
+    · exact h
+    · exact absurd hb h
+  · rw [if_neg hb]; exact hb
+
+lemma nutsInit_epsilon (cfg : NutsCfg) (o : Obj) : (nutsInit cfg o).get "_epsilon" ≠ .unset := by
+  simp [nutsInit, get_set, encQ, encVec]
+
+lemma nutsTune_congr (cfg : NutsCfg) (o o' : Obj) (acc acc' : List Bool) (sk cnt : Nat)
+    (h : AgreeOn nutsTuneReads o o') (k : String) (hk : o.get k = o'.get k) :
+    (nutsTune cfg o acc sk cnt).get k = (nutsTune cfg o' acc' sk cnt).get k := by
+  simp only [nutsTune, ← reads_congr nutsTuneReads o o' h]
+  exact get_applyWrites_congr _ o o' k (Or.inl hk)
+
+/-- the keys on which two NUTS objects must agree to warm up identically: the state keys plus
+    `_mu` (assigned once by `_initialize`, from the initial step size) and `_opt_acc_rate`
+    (constructor) — **not** `_current_alpha_ratio` -/
+def nutsWarmKeys : List String := "_mu" :: "_opt_acc_rate" :: Gen.cls_NUTS.stateKeys
+
+lemma nutsPreWarmup_congr (o o' : Obj) (h : AgreeOn nutsWarmKeys o o') :
+    AgreeOn nutsWarmKeys (nutsPreWarmup o) (nutsPreWarmup o') := by
+  have hb := h "_epsilon_bar" (by decide)
+  unfold nutsPreWarmup
+  rw [← hb]
+  by_cases hu : o.get "_epsilon_bar" = .unset
+  · simp only [hu, if_true]
+    intro k hk
+    simp only [get_set]
+    split
+    · rfl
+    · exact h k hk
+  · simp only [hu, if_false]; exact h
+
+lemma nuts_step_warm (cfg : NutsCfg) (o o' : Obj) (ds : List Rat) (h : AgreeOn nutsWarmKeys o o') :
+    ((nutsStepSpec cfg).step o ds).2 = ((nutsStepSpec cfg).step o' ds).2 ∧
+      AgreeOn ("_current_alpha_ratio" :: nutsWarmKeys) ((nutsStepSpec cfg).step o ds).1 ((nutsStepSpec cfg).step o' ds).1 := by
+  have hr : AgreeOn (nutsStepSpec cfg).reads o o' := h.mono (by show ∀ k, k ∈ nutsReads → k ∈ nutsWarmKeys; decide)
+  obtain ⟨h1, h2⟩ := (nutsStepSpec cfg).step_dep o o' ds hr
+  refine ⟨h1, ?_⟩
+  intro k hk
+  rcases List.mem_cons.mp hk with rfl | hk
+  · apply h2
+    right
+    simp only [nutsStepSpec, nutsReads, nutsWrites, List.map]
+    obtain ⟨a, n, p, q, r, hsh⟩ := nutsKern_shape cfg (o.get "_epsilon") (o.get "_epsilon_bar") (o.get "_max_depth")
+      (o.get "current_point") (o.get "current_target_grad") (o.get "current_target_logd") ds
+    rw [hsh]
+    exact ⟨a, by simp [collect]⟩
+  · exact h2 k (Or.inl (h k hk))
+
+/-- one iteration of the warm-up loop (step, `tune` at tuning intervals, store) on two NUTS
+    objects agreeing on `nutsWarmKeys` -/
+lemma nuts_warmStep_congr (cfg : NutsCfg) (ti idx : Nat) (a b : Run Rat Bool)
+    (h : AgreeOn nutsWarmKeys a.obj b.obj) (hs : a.stream = b.stream) :
+    AgreeOn nutsWarmKeys (warmStep (nutsSpec cfg) ti idx a).obj (warmStep (nutsSpec cfg) ti idx b).obj ∧
+    (warmStep (nutsSpec cfg) ti idx a).stream = (warmStep (nutsSpec cfg) ti idx b).stream ∧
+    ∃ pt ac, (warmStep (nutsSpec cfg) ti idx a).samples = a.samples ++ [pt] ∧
+      (warmStep (nutsSpec cfg) ti idx b).samples = b.samples ++ [pt] ∧
+      (warmStep (nutsSpec cfg) ti idx a).acc = a.acc ++ [ac] ∧
+      (warmStep (nutsSpec cfg) ti idx b).acc = b.acc ++ [ac] := by
+  obtain ⟨h1, h2⟩ := nuts_step_warm cfg a.obj b.obj b.stream h
+  have hobj : AgreeOn nutsWarmKeys (warmStep (nutsSpec cfg) ti idx a).obj (warmStep (nutsSpec cfg) ti idx b).obj := by
+    simp only [warmStep, nutsSpec, StepSpec.toSpec, hs]
+    by_cases ht : (idx + 1) % ti = 0
+    · simp only [ht, if_true]
+      intro k hk
+      exact nutsTune_congr cfg _ _ _ _ _ _ (h2.mono (by decide)) k (h2 k (List.mem_cons_of_mem _ hk))
+    · simp only [ht, if_false]
+      exact h2.mono (fun k hk => List.mem_cons_of_mem _ hk)
+  refine ⟨hobj, ?_, point (warmStep (nutsSpec cfg) ti idx a).obj, ((nutsStepSpec cfg).step a.obj a.stream).2.1, ?_, ?_, ?_, ?_⟩
+  · simp only [warmStep, nutsSpec, StepSpec.toSpec, hs]; rw [h1]
+  · simp [warmStep]
+  · have hp : point (warmStep (nutsSpec cfg) ti idx a).obj = point (warmStep (nutsSpec cfg) ti idx b).obj :=
+      hobj "current_point" (by decide)
+    rw [hp]; simp [warmStep]
+  · simp [warmStep, nutsSpec, StepSpec.toSpec]
+  · simp only [warmStep, nutsSpec, StepSpec.toSpec, hs]; rw [h1]
+
+lemma nuts_warmLoop_congr (cfg : NutsCfg) (ti : Nat) (k : Nat) : ∀ (idx : Nat) (a b : Run Rat Bool),
+    AgreeOn nutsWarmKeys a.obj b.obj → a.stream = b.stream →
+    AgreeOn nutsWarmKeys (warmLoop (nutsSpec cfg) ti k idx a).obj (warmLoop (nutsSpec cfg) ti k idx b).obj ∧
+    (warmLoop (nutsSpec cfg) ti k idx a).stream = (warmLoop (nutsSpec cfg) ti k idx b).stream ∧
+    ∃ tail : List (Val × Bool), tail.length = k ∧
+      (warmLoop (nutsSpec cfg) ti k idx a).samples = a.samples ++ tail.map Prod.fst ∧
+      (warmLoop (nutsSpec cfg) ti k idx b).samples = b.samples ++ tail.map Prod.fst ∧
+      (warmLoop (nutsSpec cfg) ti k idx a).acc = a.acc ++ tail.map Prod.snd ∧
+      (warmLoop (nutsSpec cfg) ti k idx b).acc = b.acc ++ tail.map Prod.snd := by
+  induction k with
+  | zero => intro idx a b h hs; exact ⟨h, hs, [], rfl, by simp [warmLoop]⟩
+  | succ j ih =>
+    intro idx a b h hs
+    obtain ⟨g1, g2, pt, ac, e1, e2, e3, e4⟩ := nuts_warmStep_congr cfg ti idx a b h hs
+    obtain ⟨i1, i2, tail, hl, f1, f2, f3, f4⟩ := ih (idx + 1) _ _ g1 g2
+    simp only [warmLoop]
+    refine ⟨i1, i2, (pt, ac) :: tail, by simp [hl], ?_, ?_, ?_, ?_⟩
+    · rw [f1, e1]; simp
+    · rw [f2, e2]; simp
+    · rw [f3, e3]; simp
+    · rw [f4, e4]; simp
+
+/-! ## 7. concrete instances used by the `example`s and the counterexamples -/
+
+/-- standard normal log-density (up to a constant), exact -/
+def exLogd (v : Vec) : C02.XVal := .fin (-(1/2) * C02.sqNorm v)
+def exGrad (v : Vec) : Vec := v.map (fun a => -a)
+/-- a stand-in for the float square root that is exact on the values used (`1/4 ↦ 1/2`, `3/4 ↦ 7/8`) -/
+def exSqrt (q : Rat) : Rat := if q = 1/4 then 1/2 else if q = 3/4 then 7/8 else q
+def exCtor : Obj := (Obj.empty.set "initial_point" (encVec [0, 1])).set "initial_scale" (encVec [1/2])
+def exCtorMala : Obj := (Obj.empty.set "initial_point" (encVec [0, 1])).set "initial_scale" (encVec [1/4])
+
+def exTarget : C08.Target := { P := [[1]], b := [0], wall := none }
+def exCfg : NutsCfg :=
+  { ctx := C08.psCtx exTarget, alpha := fun _ _ => .fin (1/2), logd := exTarget.logd, grad := exTarget.grad,
+    eps0 := 1/4, expf := fun q => q, logf := fun q => q, sqrtk := fun k => (k : Rat), powk := fun _ => 1/2 }
+/-- `NUTS(target, initial_point=[1], max_depth=1, step_size=0.5, opt_acc_rate=0.6)` -/
+def exNutsCtor : Obj :=
+  (((Obj.empty.set "initial_point" (encVec [1])).set "_max_depth" (.int 1)).set "_step_size" (encQ (1/2))).set
+    "_opt_acc_rate" (encQ (3/5))
+def exStream : List Rat := [1, 5, 1/4, 0, 0, 1, 5, 3/4, 0, 0, 0, 0, 0]
 
 end CuqiVerif.C14
